@@ -18,7 +18,7 @@ PROFILES = ["heap-summary-allocated", "heap-summary-retained", "heap-flame-alloc
 
 
 def make_program(rng):
-    lines = gen_full.gen_program(rng, max_stmts=rng.choice([12, 25, 40]), inject_fail=0.25, annotations=False)
+    lines = gen_full.gen_program(rng, max_stmts=rng.choice([12, 25, 40]), inject_fail=0.3, annotations=True)
     out = []
     markers = {}  # line -> (0 if module-level code else 1, [names])
     defs = []  # indents of enclosing def headers
